@@ -252,16 +252,17 @@ Definition sig_disconnect_all (w : world) (s : nat) : world :=
   | _ => w
   end.
 
-(* Impl::finishEmit(numEntries), followed by the release of Signal::emit's local owner *)
+(* Impl::finishEmit(numEntries), followed by the release of Signal::emit's local owner.
+   (The code clears m_disconnectedDuringEmit before the sweep, the model after it: nothing reads the flag
+   in between, and this way "a marked entry implies the flag" holds in every intermediate state.) *)
 Definition finish_emit (w : world) (i : nat) (n : nat) : world :=
   match get_impl w i with
   | None => w
   | Some m =>
-      let w1 := put_impl w i (impl_with_flags m false false) in
+      let w1 := put_impl w i (impl_with_flags m false (i_dde m)) in
       let w2 := if i_dde m then disconnect_where c_tbd w1 i (seq 0 n) else w1 in
       match get_impl w2 i with
-      | Some m2 => if i_owned m2 then w2
-                   else put_impl w2 i (impl_with_owner m2 false false)
+      | Some m2 => put_impl w2 i (impl_with_owner (impl_with_flags m2 false false) (i_owned m2) (i_owned m2))
       | None => w2
       end
   end.
